@@ -130,7 +130,24 @@ func c03Check(ctx *vfCtx, c c03Case) {
 			wantAuth = append([]string{"$" + p.RoomID[1:]}, p.Auth...)
 			for _, a := range p.Auth {
 				if a == "$"+p.RoomID[1:] {
-					ctx.Unjudged("proto auth_events already names the create event")
+					// the proto-event names the create event itself (at any position): the statement
+					// still demands that it is REPORTED first; the rest of the list is not judged
+					ctx.Class("v12-proto-names-create-event")
+					if len(orig.Auth) == 0 || orig.Auth[0] != "$"+p.RoomID[1:] {
+						ctx.Fail("C03/v12-first-auth-event", "v12 event whose auth_events name the create event at another position does not report it first: %v", orig.Auth)
+					}
+					for label, parsed := range c03Reparse(impl, ev) {
+						if parsed == nil {
+							continue
+						}
+						var ids []string
+						if vfCatch(ctx, "C03/"+label, func() { ids = parsed.AuthEventIDs() }) {
+							return
+						}
+						if len(ids) == 0 || ids[0] != "$"+p.RoomID[1:] {
+							ctx.Fail("C03/v12-first-auth-event/"+label, "re-parsed (%s) v12 event does not report the create event first: %v", label, ids)
+						}
+					}
 					return
 				}
 			}
@@ -369,6 +386,24 @@ func c03Check(ctx *vfCtx, c c03Case) {
 			ctx.Fail("C03/id-collision/"+c.Diff, "proto-events differing in %s built events with the same ID %s: %q vs %q", c.Diff, id2, ev.JSON(), ev2.JSON())
 		}
 	}
+}
+
+// c03Reparse re-parses a built event through the three paths (nil where parsing fails).
+func c03Reparse(impl IRoomVersion, ev PDU) map[string]PDU {
+	out := map[string]PDU{}
+	js := append([]byte(nil), ev.JSON()...)
+	if p, err := impl.NewEventFromUntrustedJSON(append([]byte(nil), js...)); err == nil {
+		out["untrusted"] = p
+	}
+	if p, err := impl.NewEventFromTrustedJSON(append([]byte(nil), js...), false); err == nil {
+		out["trusted"] = p
+	}
+	if hj, err := ev.ToHeaderedJSON(); err == nil {
+		if p, err := NewEventFromHeaderedJSON(hj, false); err == nil {
+			out["headered"] = p
+		}
+	}
+	return out
 }
 
 type jsonRaw []byte
